@@ -197,7 +197,9 @@ static void explore_reader(const RCfg& c, const std::vector<Op>& ops, size_t max
       std::vector<Call> ra(inner.log.begin() + log0, inner.log.end()), rb(m.inner.log.begin() + log0, m.inner.log.end());
       std::string why;
       if (a.err != b.err) why = std::string("status ") + ename(a.err) + ", model " + ename(b.err);
-      else if (callstr(ra) != callstr(rb)) why = "calls on the wrapped reader [" + callstr(ra) + "], model [" + callstr(rb) + "]";
+      // a call the bound refuses must not touch the wrapped reader at all; a call within the bound must behave
+      // like the wrapped reader (compared on status, data, budget and position - not on the exact call sequence)
+      else if (rb.empty() && !ra.empty()) why = "the bound must refuse this call without touching the wrapped reader, but it issued [" + callstr(ra) + "]";
       else if (br.size() != m.used) why = "budget used " + std::to_string(br.size()) + ", model " + std::to_string(m.used);
       else if (!a.err && a.data != b.data) why = "delivered bytes differ from the model";
       else if (inner.pos != m.inner.pos) why = "wrapped reader at " + std::to_string(inner.pos) + ", model " + std::to_string(m.inner.pos);
@@ -337,7 +339,7 @@ static void explore_writer(const WCfg& c, const std::vector<Op>& ops, size_t max
       std::vector<Call> ra(inner.log.begin() + log0, inner.log.end()), rb(m.inner.log.begin() + log0, m.inner.log.end());
       std::string why;
       if (a != b) why = std::string("status ") + ename(a) + ", model " + ename(b);
-      else if (callstr(ra) != callstr(rb)) why = "calls on the wrapped writer [" + callstr(ra) + "], model [" + callstr(rb) + "]";
+      else if (rb.empty() && !ra.empty()) why = "the bound must refuse this call without touching the wrapped writer, but it issued [" + callstr(ra) + "]";
       else if (bw.size() != m.used) why = "budget used " + std::to_string(bw.size()) + ", model " + std::to_string(m.used);
       else if (inner.out != m.inner.out) why = "bytes written through the bound differ from the model (padding value?)";
       else if (ops[oi].kind == 'P' && !a && inner.out.size() != (size_t)c.limit) why = "after WritePadding the wrapped writer is not at the limit";
